@@ -59,6 +59,8 @@
 //! [`request_resume`]: TransferControl::request_resume
 //! [`advance_to_file`]: TransferControl::advance_to_file
 
+#[cfg(repe_verif_loom)]
+use crate::verif_loom::std_shadow as std;
 use std::collections::{HashMap, VecDeque};
 use std::hash::Hash;
 use std::sync::{Arc, Condvar, Mutex, Weak};
